@@ -1074,7 +1074,9 @@ class SQLObject(with_metaclass(declarative.DeclarativeMeta, object)):
             if self.sqlmeta.expired:
                 return
             for column in self.sqlmeta.columnList:
-                delattr(self, instanceName(column.name))
+                # an attribute may be gone already: a reload that raised
+                # SQLObjectNotFound cleared the flag and loaded nothing
+                self.__dict__.pop(instanceName(column.name), None)
             self.sqlmeta.expired = True
             self._connection.cache.expire(self.id, self.__class__)
             self._SO_createValues = {}
